@@ -658,6 +658,11 @@ func (h *HeapState) get(key string) string {
 		v = h.over[key]
 	case h.hv != nil && (h.hv.Maps[key] || (h.hv.Std && !h.g.P.IsModuleKey(key) && key != "$alloc" && !strings.HasPrefix(key, "L|"))):
 		v = h.g.declConst(sanitize(key)+"@"+h.epoch, h.g.heapMapSort(key))
+		if !h.hv.Maps[key] && strings.HasPrefix(key, "H|") && h.parent != nil {
+			// havocked only because the standard library may write cells of this (non-module) type: package-level
+			// variables of the module (objects with negative ids) are not reachable from there and keep their value
+			h.g.assumeDef(v, fmt.Sprintf("(forall ((p Ptr)) (! (=> (< (obj p) 0) (= (select %s p) (select %s p))) :pattern ((select %s p))))", v, h.parent.get(key), v))
+		}
 	case h.preds != nil:
 		var vals []string
 		same := true
